@@ -14,6 +14,10 @@ fn main() {
         "w_iter" => vh::w_iter::main(rest),
         "w_close" => vh::w_close::main(rest),
         "w_instance" => vh::w_instance::main(rest),
+        "w_default" => vh::w_default::main(rest),
+        "w_flag" => vh::w_flag::main(rest),
+        "w_forbid" => vh::w_forbid::main(rest),
+        "w_pipe" => vh::w_pipe::main(rest),
         "w_halflock" => vh::w_halflock::main(rest),
         _ => {
             eprintln!("unknown workload {:?}", w);
